@@ -226,9 +226,9 @@ func checkC20Race(r *vt.Run) {
 	r.Bound("race_pass_process_generations", raceGenerations)
 	for _, srv := range srvs {
 		for _, ms := range []bool{false, true} {
-			run(c20Case{nil, srv, ms})
+			run(c20Case{Servers: srv, MgrSw: ms})
 			for _, m := range c20TreeMutations {
-				run(c20Case{[]string{m}, srv, ms})
+				run(c20Case{Tree: []string{m}, Servers: srv, MgrSw: ms})
 			}
 		}
 	}
